@@ -215,13 +215,16 @@ theorem runStabActs_mixRho (np n : Nat) (det : Bool) (arr : Array COp) :
       obtain ⟨e2, m2⟩ := runStabActs_mixRho np n det arr as s1 s' (fun b hb => hw b (List.mem_cons_of_mem _ hb)) m1 h
       exact ⟨by rw [e2, e1]; rfl, m2⟩
 
-/-- what `placeOp` can emit for operation `k` (noise only on existing qubits, with admissible parameters) -/
-def GoodAct' (n k : Nat) (a : Act) : Prop :=
-  a = .gate k ∨ a = .replace k ∨ ∃ side q nm, a = .noise k side q nm ∧ q < n ∧ ParamOK nm
+/-- what `placeOp` can emit for operation `k`: noise only on existing qubits, with parameters satisfying `P` -/
+def GoodActP (P : NoiseM → Prop) (n k : Nat) (a : Act) : Prop :=
+  a = .gate k ∨ a = .replace k ∨ ∃ side q nm, a = .noise k side q nm ∧ q < n ∧ P nm
 
-theorem addl_good' (n np : Nat) (be : Backend) (op : COp) (k : Nat) (a b : NoiseM) (hw : OpWF n np op)
-    (pa : ParamOK a) (pb : ParamOK b) (l : List Act)
-    (h : addl be np op k a b = .ok l) : ∀ x ∈ l, GoodAct' n k x := by
+/-- … with depolarizing probabilities in `[0,1]` -/
+abbrev GoodAct' (n k : Nat) (a : Act) : Prop := GoodActP ParamOK n k a
+
+theorem addl_goodP (P : NoiseM → Prop) (n np : Nat) (be : Backend) (op : COp) (k : Nat) (a b : NoiseM) (hw : OpWF n np op)
+    (pa : P a) (pb : P b) (l : List Act)
+    (h : addl be np op k a b = .ok l) : ∀ x ∈ l, GoodActP P n k x := by
   unfold addl at h
   split at h
   · injection h with h; subst h
@@ -248,51 +251,50 @@ theorem addl_good' (n np : Nat) (be : Backend) (op : COp) (k : Nat) (a b : Noise
       · cases h
       · injection h with h; subst h; intro x hx; cases hx
 
-theorem good_gate' (n k : Nat) : ∀ x ∈ [Act.gate k], GoodAct' n k x := by
+theorem good_gateP (P : NoiseM → Prop) (n k : Nat) : ∀ x ∈ [Act.gate k], GoodActP P n k x := by
   intro x hx; simp only [List.mem_singleton] at hx; exact Or.inl hx
 
-theorem good_append' (n k : Nat) (l1 l2 : List Act) (h1 : ∀ x ∈ l1, GoodAct' n k x) (h2 : ∀ x ∈ l2, GoodAct' n k x) :
-    ∀ x ∈ l1 ++ l2, GoodAct' n k x := by
+theorem good_appendP (P : NoiseM → Prop) (n k : Nat) (l1 l2 : List Act) (h1 : ∀ x ∈ l1, GoodActP P n k x)
+    (h2 : ∀ x ∈ l2, GoodActP P n k x) : ∀ x ∈ l1 ++ l2, GoodActP P n k x := by
   intro x hx; rcases List.mem_append.1 hx with h | h
   · exact h1 x h
   · exact h2 x h
 
-theorem placeOp_good' (n np : Nat) (ns : Bool) (be : Backend) (op : COp) (k : Nat) (hw : OpWF n np op)
-    (p0 : ParamOK op.n0) (p1 : ParamOK op.n1) (acts : List Act)
-    (h : placeOp ns be np op k = .ok acts) : ∀ x ∈ acts, GoodAct' n k x := by
-  have pn : ParamOK NoiseM.none := trivial
+theorem placeOp_goodP (P : NoiseM → Prop) (pn : P NoiseM.none) (n np : Nat) (ns : Bool) (be : Backend) (op : COp) (k : Nat)
+    (hw : OpWF n np op) (p0 : P op.n0) (p1 : P op.n1) (acts : List Act)
+    (h : placeOp ns be np op k = .ok acts) : ∀ x ∈ acts, GoodActP P n k x := by
   unfold placeOp at h
   cases hctl : (op.kind.isCtrlPair || op.kind.isClassicalCtrl) <;> simp only [hctl, Bool.false_eq_true, if_false, if_true] at h
   · -- not a controlled operation
     split at h
-    · injection h with h; subst h; exact good_gate' n k
+    · injection h with h; subst h; exact good_gateP P n k
     · split at h
       · split at h
         · cases ha : addl be np op k op.n0 .none with
           | error e => rw [ha] at h; cases h
           | ok l => rw [ha] at h; injection h with h; subst h
-                    exact good_append' n k _ _ (good_gate' n k) (addl_good' n np be op k _ _ hw p0 pn l ha)
+                    exact good_appendP P n k _ _ (good_gateP P n k) (addl_goodP P n np be op k _ _ hw p0 pn l ha)
         · cases ha : addl be np op k op.n0 .none with
           | error e => rw [ha] at h; cases h
           | ok l => rw [ha] at h; injection h with h; subst h
-                    exact good_append' n k _ _ (addl_good' n np be op k _ _ hw p0 pn l ha) (good_gate' n k)
+                    exact good_appendP P n k _ _ (addl_goodP P n np be op k _ _ hw p0 pn l ha) (good_gateP P n k)
       · split at h
         · injection h with h; subst h
           intro x hx; simp only [List.mem_singleton] at hx; exact Or.inr (Or.inl hx)
         · cases h
   · split at h
-    · injection h with h; subst h; exact good_gate' n k
+    · injection h with h; subst h; exact good_gateP P n k
     · split at h
       · -- both additive: four placements
         split at h
         · cases ha : addl be np op k op.n0 op.n1 with
           | error e => rw [ha] at h; cases h
           | ok l => rw [ha] at h; injection h with h; subst h
-                    exact good_append' n k _ _ (good_gate' n k) (addl_good' n np be op k _ _ hw p0 p1 l ha)
+                    exact good_appendP P n k _ _ (good_gateP P n k) (addl_goodP P n np be op k _ _ hw p0 p1 l ha)
         · cases ha : addl be np op k op.n0 op.n1 with
           | error e => rw [ha] at h; cases h
           | ok l => rw [ha] at h; injection h with h; subst h
-                    exact good_append' n k _ _ (addl_good' n np be op k _ _ hw p0 p1 l ha) (good_gate' n k)
+                    exact good_appendP P n k _ _ (addl_goodP P n np be op k _ _ hw p0 p1 l ha) (good_gateP P n k)
         · cases ha : addl be np op k .none op.n1 with
           | error e => rw [ha] at h; cases h
           | ok l1 =>
@@ -300,8 +302,8 @@ theorem placeOp_good' (n np : Nat) (ns : Bool) (be : Backend) (op : COp) (k : Na
             | error e => rw [ha, hb] at h; cases h
             | ok l2 =>
               rw [ha, hb] at h; injection h with h; subst h
-              exact good_append' n k _ _ (good_append' n k _ _ (addl_good' n np be op k _ _ hw pn p1 l1 ha) (good_gate' n k))
-                (addl_good' n np be op k _ _ hw p0 pn l2 hb)
+              exact good_appendP P n k _ _ (good_appendP P n k _ _ (addl_goodP P n np be op k _ _ hw pn p1 l1 ha) (good_gateP P n k))
+                (addl_goodP P n np be op k _ _ hw p0 pn l2 hb)
         · cases ha : addl be np op k op.n0 .none with
           | error e => rw [ha] at h; cases h
           | ok l1 =>
@@ -309,9 +311,14 @@ theorem placeOp_good' (n np : Nat) (ns : Bool) (be : Backend) (op : COp) (k : Na
             | error e => rw [ha, hb] at h; cases h
             | ok l2 =>
               rw [ha, hb] at h; injection h with h; subst h
-              exact good_append' n k _ _ (good_append' n k _ _ (addl_good' n np be op k _ _ hw p0 pn l1 ha) (good_gate' n k))
-                (addl_good' n np be op k _ _ hw pn p1 l2 hb)
+              exact good_appendP P n k _ _ (good_appendP P n k _ _ (addl_goodP P n np be op k _ _ hw p0 pn l1 ha) (good_gateP P n k))
+                (addl_goodP P n np be op k _ _ hw pn p1 l2 hb)
       · cases h
+
+theorem placeOp_good' (n np : Nat) (ns : Bool) (be : Backend) (op : COp) (k : Nat) (hw : OpWF n np op)
+    (p0 : ParamOK op.n0) (p1 : ParamOK op.n1) (acts : List Act)
+    (h : placeOp ns be np op k = .ok acts) : ∀ x ∈ acts, GoodAct' n k x :=
+  placeOp_goodP ParamOK trivial n np ns be op k hw p0 p1 acts h
 
 theorem good_to_ok (n np k : Nat) (arr : Array COp) (harr : ∀ (j : Nat) (op : COp), arr[j]? = some op → OpOK n np op) (a : Act)
     (h : GoodAct' n k a) : ActOK n np arr a := by
